@@ -206,6 +206,12 @@ struct wait_condition_s {
 
 /* If a waiter has waited this many times, it may set the MU_LONG_WAIT bit. */
 #define LONG_WAIT_THRESHOLD 30
+#if defined(NSYNC_VERIF) && defined(NSYNC_VERIF_LONG_WAIT_THRESHOLD)
+/* Verification hook: lets a model checker exercise the starvation-avoidance
+   mechanism with a small threshold. */
+#undef LONG_WAIT_THRESHOLD
+#define LONG_WAIT_THRESHOLD NSYNC_VERIF_LONG_WAIT_THRESHOLD
+#endif
 
 /* ---------- */
 
